@@ -71,11 +71,17 @@ OkE(ev) == ev.verdict # "PANIC" /\ LimitsE(ev) /\ SoundE(ev) /\ CompleteE(ev)
 
 Explain(ev) ==
     LET P == PofE(ev)
-        \* the smallest sets of dropped clauses under which the proof would have been accepted
-        ExplK(k) == { S \in SUBSET Lax3Rules : Cardinality(S) = k /\ Entails3X(P, HTE(ev), ev.q, ev.t, ev.kind, ev.ce, ev.zn, S) }
+        \* the smallest sets of dropped clauses under which the proof would have been accepted; the two
+        \* broadest clauses are only drawn upon when the others do not suffice
+        ExplK(R, k) == { S \in SUBSET R : Cardinality(S) = k /\ Entails3X(P, HTE(ev), ev.q, ev.t, ev.kind, ev.ce, ev.zn, S) }
+        MinIn(R) == LET ks == { k \in 1..Cardinality(R) : ExplK(R, k) # {} } IN
+                    IF ks = {} THEN {} ELSE ExplK(R, CHOOSE k \in ks : \A j \in ks : k <= j)
+        R1 == Lax3Rules \ {"last-nsec3-covers-everything", "zone-unchecked-without-soa"}
+        R2 == Lax3Rules \ {"last-nsec3-covers-everything"}
         minimal == IF SoundE(ev) \/ ~Known(ev) THEN {}
-                   ELSE LET ks == { k \in 1..Cardinality(Lax3Rules) : ExplK(k) # {} } IN
-                        IF ks = {} THEN {} ELSE ExplK(CHOOSE k \in ks : \A j \in ks : k <= j)
+                   ELSE IF MinIn(R1) # {} THEN MinIn(R1)
+                   ELSE IF MinIn(R2) # {} THEN MinIn(R2)
+                   ELSE MinIn(Lax3Rules)
     IN  [limits |-> LimitsE(ev), sound |-> SoundE(ev), complete |-> CompleteE(ev), entails |-> EntE(ev),
          known |-> Known(ev), within |-> Within(ev),
          expectedKind |-> SkE(ev),
